@@ -63,6 +63,15 @@ struct Collector {
     enabled: bool,
 }
 
+/// stream 2, topic 3, second topic 5 (all ids different)
+fn sid() -> Identifier {
+    Identifier::numeric(2).unwrap()
+}
+fn tid() -> Identifier {
+    Identifier::numeric(3).unwrap()
+}
+
+#[allow(dead_code)]
 fn one() -> Identifier {
     Identifier::numeric(1).unwrap()
 }
@@ -78,9 +87,9 @@ fn cv(hist: u64, cfg: &StorageCfg, ops: &[String], clause: &str, trig: &str, det
 }
 
 fn partition_of(path: &str) -> Option<u32> {
-    // .../streams/1/topics/1/partitions/<p>/...
-    let i = path.find("/topics/1/partitions/")?;
-    let rest = &path[i + "/topics/1/partitions/".len()..];
+    // .../streams/2/topics/3/partitions/<p>/...
+    let i = path.find("/topics/3/partitions/")?;
+    let rest = &path[i + "/topics/3/partitions/".len()..];
     rest.split('/').next()?.parse().ok()
 }
 
@@ -157,8 +166,8 @@ async fn workload(hseed: u64, cache: CacheMode, rng: &mut Rng) -> R<(Hist, Vec<I
 async fn workload_inner(h: &mut Hist, inst: &ServerInstance, rng: &mut Rng) -> R<()> {
     let c = RawClient::connect(inst.tcp_addr).await.map_err(Stop::Inconclusive)?;
     timed("login", c.login_user("iggy", "iggy")).await?.map_err(|e| Stop::Inconclusive(e.to_string()))?;
-    timed("create_stream", c.create_stream("kstream", Some(1))).await?.map_err(|e| Stop::Inconclusive(e.to_string()))?;
-    timed("create_topic", c.create_topic(&one(), "ktopic", h.parts, CompressionAlgorithm::None, None, Some(1), IggyExpiry::NeverExpire, MaxTopicSize::Unlimited))
+    timed("create_stream", c.create_stream("kstream", Some(2))).await?.map_err(|e| Stop::Inconclusive(e.to_string()))?;
+    timed("create_topic", c.create_topic(&sid(), "ktopic", h.parts, CompressionAlgorithm::None, None, Some(3), IggyExpiry::NeverExpire, MaxTopicSize::Unlimited))
         .await?
         .map_err(|e| Stop::Inconclusive(e.to_string()))?;
     {
@@ -201,7 +210,7 @@ async fn workload_inner(h: &mut Hist, inst: &ServerInstance, rng: &mut Rng) -> R
                     s.inflight = format!("send p{p} n={n}");
                 }
                 h.ops.push(format!("send p{p} n={n}"));
-                let r = timed("send", c.send_messages(&one(), &one(), &Partitioning::partition_id(p), &mut msgs)).await?;
+                let r = timed("send", c.send_messages(&sid(), &tid(), &Partitioning::partition_id(p), &mut msgs)).await?;
                 let mut s = h.snap.lock().unwrap();
                 s.inflight_send = None;
                 s.inflight.clear();
@@ -215,7 +224,7 @@ async fn workload_inner(h: &mut Hist, inst: &ServerInstance, rng: &mut Rng) -> R
             1 => {
                 h.ops.push(format!("flush p{p}"));
                 h.snap.lock().unwrap().inflight = format!("flush p{p}");
-                let _ = timed("flush", c.flush_unsaved_buffer(&one(), &one(), p, rng.chance(1, 2))).await?;
+                let _ = timed("flush", c.flush_unsaved_buffer(&sid(), &tid(), p, rng.chance(1, 2))).await?;
                 h.snap.lock().unwrap().inflight.clear();
             }
             2 => {
@@ -233,7 +242,7 @@ async fn workload_inner(h: &mut Hist, inst: &ServerInstance, rng: &mut Rng) -> R
                 let off = rng.range(0, cur - 1);
                 h.ops.push(format!("store_offset p{p} consumer{who} = {off}"));
                 h.snap.lock().unwrap().offsets.entry((p, who)).or_default().push(off);
-                let _ = timed("store", c.store_consumer_offset(&Consumer::new(Identifier::numeric(who).unwrap()), &one(), &one(), Some(p), off)).await?;
+                let _ = timed("store", c.store_consumer_offset(&Consumer::new(Identifier::numeric(who).unwrap()), &sid(), &tid(), Some(p), off)).await?;
             }
             4 => {
                 // purge: the log restarts from offset 0
@@ -244,7 +253,7 @@ async fn workload_inner(h: &mut Hist, inst: &ServerInstance, rng: &mut Rng) -> R
                     s.inflight = "purge_topic".into();
                 }
                 // images taken during the purge are ambiguous; they are recovered with the lenient "either before or after" rule
-                let r = timed("purge", c.purge_topic(&one(), &one())).await?;
+                let r = timed("purge", c.purge_topic(&sid(), &tid())).await?;
                 let mut s = h.snap.lock().unwrap();
                 s.purged_inflight = false;
                 s.inflight.clear();
@@ -258,11 +267,11 @@ async fn workload_inner(h: &mut Hist, inst: &ServerInstance, rng: &mut Rng) -> R
             }
             _ => {
                 let exists = h.snap.lock().unwrap().topic2;
-                let two = Identifier::numeric(2).unwrap();
+                let two = Identifier::numeric(5).unwrap();
                 if exists {
                     h.ops.push("delete_topic 2".into());
                     h.snap.lock().unwrap().inflight = "delete_topic 2".into();
-                    let r = timed("delete_topic", c.delete_topic(&one(), &two)).await?;
+                    let r = timed("delete_topic", c.delete_topic(&sid(), &two)).await?;
                     let mut s = h.snap.lock().unwrap();
                     s.inflight.clear();
                     if r.is_ok() {
@@ -271,7 +280,7 @@ async fn workload_inner(h: &mut Hist, inst: &ServerInstance, rng: &mut Rng) -> R
                 } else {
                     h.ops.push("create_topic 2".into());
                     h.snap.lock().unwrap().inflight = "create_topic 2".into();
-                    let r = timed("create_topic", c.create_topic(&one(), "ktopic2", 1, CompressionAlgorithm::None, None, Some(2), IggyExpiry::NeverExpire, MaxTopicSize::Unlimited)).await?;
+                    let r = timed("create_topic", c.create_topic(&sid(), "ktopic2", 1, CompressionAlgorithm::None, None, Some(5), IggyExpiry::NeverExpire, MaxTopicSize::Unlimited)).await?;
                     let mut s = h.snap.lock().unwrap();
                     s.inflight.clear();
                     if r.is_ok() {
@@ -372,7 +381,7 @@ async fn scan(c: &RawClient, p: u32) -> Result<Vec<(u64, Bytes)>, String> {
     let mut out = vec![];
     let mut off = 0u64;
     loop {
-        let r = tokio::time::timeout(std::time::Duration::from_secs(30), c.poll_messages(&one(), &one(), Some(p), &who, &PollingStrategy::offset(off), 100, false)).await;
+        let r = tokio::time::timeout(std::time::Duration::from_secs(30), c.poll_messages(&sid(), &tid(), Some(p), &who, &PollingStrategy::offset(off), 100, false)).await;
         let pm = match r {
             Ok(Ok(p)) => p,
             Ok(Err(e)) => return Err(e.to_string()),
@@ -403,14 +412,14 @@ async fn judge(h: &Hist, img: &Image, torn: Option<u64>, inst: &ServerInstance, 
     c.login_user("iggy", "iggy").await.map_err(|e| bad("restart-succeeds", "root-login-refused", json!(e.to_string())))?;
     // catalogue: stream 1 / topic 1 with all partitions were acknowledged before any image was taken
     rep.eval("C04:catalogue-prefix");
-    let t = match c.get_topic(&one(), &one()).await {
+    let t = match c.get_topic(&sid(), &tid()).await {
         Ok(Some(t)) => t,
         other => return Err(bad("catalogue-prefix", "acknowledged-topic-missing", json!(format!("{other:?}")))),
     };
     if t.partitions_count != h.parts {
         return Err(bad("catalogue-prefix", "partition-dropped", json!({"partitions": t.partitions_count, "expected": h.parts})));
     }
-    let t2 = c.get_topic(&one(), &Identifier::numeric(2).unwrap()).await.ok().flatten().is_some();
+    let t2 = c.get_topic(&sid(), &Identifier::numeric(5).unwrap()).await.ok().flatten().is_some();
     let inflight_t2 = img.snap.inflight.contains("topic 2");
     if t2 != img.snap.topic2 && !inflight_t2 {
         return Err(bad("catalogue-prefix", "topic2-differs", json!({"recovered_has_topic2": t2, "acknowledged": img.snap.topic2})));
@@ -470,7 +479,7 @@ async fn judge(h: &Hist, img: &Image, torn: Option<u64>, inst: &ServerInstance, 
             msgs.push(Message::new(Some(((h.hist as u128) << 64) | (0x7_0000_0000u128) | ((img.n as u128) << 8) | (i as u128 + 1)), pl, None));
         }
         rep.eval("C04:continues-at-next-offset");
-        if let Err(e) = c.send_messages(&one(), &one(), &Partitioning::partition_id(p), &mut msgs).await {
+        if let Err(e) = c.send_messages(&sid(), &tid(), &Partitioning::partition_id(p), &mut msgs).await {
             return Err(bad("continues-at-next-offset", "send-refused-after-recovery", json!({"partition": p, "error": e.to_string()})));
         }
         let exp_len = got.len() + n as usize;
@@ -504,7 +513,7 @@ async fn judge(h: &Hist, img: &Image, torn: Option<u64>, inst: &ServerInstance, 
         // stored consumer offsets are values that were stored at some time (never garbage)
         for who in 1..=2u32 {
             rep.eval("C04:offsets-not-garbage");
-            let r = c.get_consumer_offset(&Consumer::new(Identifier::numeric(who).unwrap()), &one(), &one(), Some(p)).await;
+            let r = c.get_consumer_offset(&Consumer::new(Identifier::numeric(who).unwrap()), &sid(), &tid(), Some(p)).await;
             if let Ok(Some(o)) = r {
                 let hist_vals = img.snap.offsets.get(&(p, who)).cloned().unwrap_or_default();
                 if !hist_vals.contains(&o.stored_offset) && !purge_amb {
